@@ -734,6 +734,22 @@ def check_errflow_c14(prog, rep):
     if not ok:
         rep.violation('ERRFLOW', m4, 'TDVPEngine.evolve', 'trunc_err_list',
                       'evolve must add every entry of self.trunc_err_list of each sweep', f.lineno)
+    # sweep() resets trunc_err_list: the collection must happen once per sweep, i.e. inside the
+    # same loop body as the call of self.sweep()
+    rep.instance('ERRFLOW', {'function': 'TDVPEngine.evolve', 'call': 'collect-per-sweep'})
+    for st in ast.walk(f):
+        if isinstance(st, ast.For) and unparse(st.iter) == 'self.trunc_err_list':
+            p = parent(st)
+            sweeps_in_parent = isinstance(p, (ast.For, ast.While)) and any(
+                isinstance(b, ast.Expr) and 'self.sweep(' in unparse(b) for b in p.body)
+            sweep_in_loop = any(isinstance(lp, (ast.For, ast.While)) and 'self.sweep(' in unparse(lp)
+                                for lp in ast.walk(f) if lp is not st)
+            if sweep_in_loop and not sweeps_in_parent:
+                rep.violation('ERRFLOW', m4, 'TDVPEngine.evolve', 'collect-outside-sweep-loop',
+                              'self.sweep() runs inside a step loop and resets '
+                              'self.trunc_err_list each time, but the errors are collected outside '
+                              'that loop: only the last sweep of each evolve() call is counted',
+                              st.lineno)
     return n
 
 
